@@ -490,12 +490,16 @@ func rangeScan[K nodeKey, V any, L nodeLeaf[V]](
 			return
 		}
 
-		var q []nodeRef
+		// the depth belongs to the path leading to a node, not to the scan
+		type item struct {
+			nodeRef
+			depth int
+		}
+		var q []item
 
-		depth := 0
-		q = append(q, root)
+		q = append(q, item{root, 0})
 		for len(q) != 0 {
-			n := q[len(q)-1]
+			n, depth := q[len(q)-1].nodeRef, q[len(q)-1].depth
 			q = q[:len(q)-1]
 
 			if n.tag == nodeKindLeaf {
@@ -517,6 +521,7 @@ func rangeScan[K nodeKey, V any, L nodeLeaf[V]](
 			}
 
 			node := n.node()
+			childDepth := depth + int(node.prefixLen) + 1
 
 			if node.prefixLen > 0 && depth < len(search) {
 				nodeKey := unsafe.Slice(&node.prefix[0], min(maxPrefixLen, node.prefixLen))
@@ -531,14 +536,14 @@ func rangeScan[K nodeKey, V any, L nodeLeaf[V]](
 				n4 := (*node4)(n.pointer)
 
 				for i := int(n4.childrenLen) - 1; i >= 0; i-- {
-					q = append(q, n4.children[i])
+					q = append(q, item{n4.children[i], childDepth})
 				}
 
 			case nodeKind16:
 				n16 := (*node16)(n.pointer)
 
 				for i := int(n16.childrenLen) - 1; i >= 0; i-- {
-					q = append(q, n16.children[i])
+					q = append(q, item{n16.children[i], childDepth})
 				}
 
 			case nodeKind48:
@@ -549,7 +554,7 @@ func rangeScan[K nodeKey, V any, L nodeLeaf[V]](
 					if idx == 0 {
 						continue
 					}
-					q = append(q, n48.children[idx-1])
+					q = append(q, item{n48.children[idx-1], childDepth})
 				}
 
 			case nodeKind256:
@@ -559,14 +564,12 @@ func rangeScan[K nodeKey, V any, L nodeLeaf[V]](
 					if n256.children[i].pointer == nil {
 						continue
 					}
-					q = append(q, n256.children[i])
+					q = append(q, item{n256.children[i], childDepth})
 				}
 
 			default:
 				panic("shouldn't be possible!")
 			}
-
-			depth += int(node.prefixLen) + 1
 		}
 	}
 }
